@@ -193,7 +193,13 @@ func MannWhitneyUTest(x1, x2 []float64, alt LocationHypothesis) (*MannWhitneyUTe
 			p = dist.CDF(U1)
 
 		case LocationGreater:
-			p = 1 - dist.CDF(U1-1)
+			// P(U >= U1) = 1 - P(U <= U1 - step), where U moves in
+			// steps of 1/2 when there are ties.
+			step := 1.0
+			if hasTies {
+				step = 0.5
+			}
+			p = 1 - dist.CDF(U1-step)
 		}
 	} else {
 		// Use normal approximation (with tie and continuity
